@@ -168,3 +168,108 @@ class resolve_column:
 
     def returns(spec):
         return spec
+
+
+def _ragged_cols(columns):
+    return len({len(v._underlying) for v in columns}) > 1
+
+
+@contract('serif.vector.Vector._stack_columns', props=['C02', 'C01'])
+class stack_columns:
+    """C02: columns side by side; unequal lengths are rejected rather than stored."""
+    params = {'columns': 'alt:tupleof:2:vector|tupleof:3:vector|listof:2:vector'}
+
+    def requires(columns):
+        return all(S.truthful(v) for v in columns)
+    raises = [(SerifValueError, _ragged_cols, True)]
+
+    def returns(columns):
+        return Table(list(columns))
+
+    def ensures(columns, result):
+        return isinstance(result, Table) and S.rect(result) and S.same_cells(result, columns)
+
+
+@contract('serif.table.Table.__len__', props=['C02'])
+class table_len:
+    params = {'self': 'alt:table0|table1|table2'}
+    inline = True
+
+    def requires(self):
+        return S.rect(self)
+
+    def returns(self):
+        return self._length
+
+
+def _make_rshift(variant, other_sort):
+    class spec:
+        """C02: >> appends columns and leaves existing ones untouched (fresh copies, same cells,
+        names, dtypes); a column of another length is rejected."""
+        params = {'self': 'alt:table1|table2', 'other': other_sort}
+
+        def requires(self, other):
+            return S.rect(self) and all(S.truthful(c) for c in self._underlying) and \
+                (not isinstance(other, _V) or S.truthful(other))
+
+        def _rag(self, other):
+            return isinstance(other, _V) and len(other._underlying) != self._length
+        raises = [(SerifValueError, _rag, True)]
+
+        def ensures(self, other, result):
+            return isinstance(result, Table) and S.rect(result) and \
+                S.same_cells(result, list(self._underlying) + [other])
+    spec.__name__ = 'table_rshift_' + str(variant)
+    contract('serif.table.Table.__rshift__', props=['C02', 'C01', 'C18'], variant=variant)(spec)
+
+
+from serif.vector import Vector as _V  # noqa: E402
+_make_rshift(None, 'vector')
+
+
+@contract('serif.table.Table.__lshift__', props=['C02'])
+class table_lshift:
+    """C02: << appends one row: every column gets exactly its cell appended, old cells untouched."""
+    params = {'self': 'alt:table1|table2', 'other': 'alt:listof:1:scalar|listof:2:scalar'}
+
+    def requires(self, other):
+        return S.rect(self) and all(S.truthful(c) and c._dtype is not None and S.valid_dtype(c._dtype) for c in self._underlying)
+    raises = [(ValueError, lambda self, other: len(other) != len(self._underlying), True)]
+
+    def ensures(self, other, result):
+        if not isinstance(result, Table) or len(result._underlying) != len(self._underlying):
+            return False
+        return S.rect(result) and result._length == self._length + 1 and \
+            all(tuple(r._underlying) == tuple(list(c._underlying) + [x])
+                for r, c, x in zip(result._underlying, self._underlying, other))
+
+
+def _make_table_getitem(variant, key_sort):
+    class spec:
+        """C02/C07: the same row selection is applied to every column alike; column names and
+        dtypes are kept; the result is rectangular."""
+        params = {'self': 'alt:table1|table2|table3', 'key': key_sort}
+
+        def requires(self, key):
+            return S.rect(self) and all(S.truthful(c) for c in self._underlying) and \
+                (isinstance(key, slice) or S.is_bool_mask(key))
+        raises = [(ValueError, lambda key: isinstance(key, slice) and key.step is not None and key.step == 0, True),
+                  (AssertionError, lambda self, key: (not isinstance(key, slice)) and len(key) != self._length, True)]
+
+        def ensures(self, key, result):
+            if not isinstance(result, Table) or len(result._underlying) != len(self._underlying):
+                return False
+            if isinstance(key, slice):
+                return S.rect(result) and all(
+                    tuple(r._underlying) == tuple(c._underlying[key]) and r._dtype == c._dtype and r._name == c._name
+                    for r, c in zip(result._underlying, self._underlying))
+            return S.rect(result) and all(
+                tuple(r._underlying) == tuple([x for x, m in zip(c._underlying, key) if m])
+                and r._dtype == c._dtype and r._name == c._name
+                for r, c in zip(result._underlying, self._underlying))
+    spec.__name__ = 'table_getitem_' + variant
+    contract('serif.table.Table.__getitem__', props=['C02', 'C07', 'C18'], variant=variant)(spec)
+
+
+_make_table_getitem('rows-slice', 'slice')
+_make_table_getitem('rows-mask', 'alt:boolvec|list_bool')
